@@ -227,6 +227,15 @@ def conv_statement(lon, lat, poles_only=False):
     awayx = np.abs(lat) < 89.9
     if true_sep(ra, dec, lon, lat)[awayx].max(initial=0.0) > 1e-9 or not ((ra >= 0) & (ra <= 360)).all():
         return "eq2xyz/xyz2eq round trip"
+    # positions held in single precision are positions too: the values they hold go round to the same 1e-9 degree
+    lon4, lat4 = lon.astype("f4"), lat.astype("f4")
+    x4, y4, z4 = co.eq2xyz(lon4, lat4)
+    if np.abs(np.asarray(x4, dtype="f8") ** 2 + np.asarray(y4, dtype="f8") ** 2 + np.asarray(z4, dtype="f8") ** 2 - 1).max() > 1e-14:
+        return "unit length for float32 input"
+    ra, dec = co.xyz2eq(x4, y4, z4)
+    a4 = np.abs(lat4.astype("f8")) < 89.9
+    if true_sep(ra, dec, lon4.astype("f8"), lat4.astype("f8"))[a4].max(initial=0.0) > 1e-9:
+        return "eq2xyz/xyz2eq round trip for float32 input"
     return True
 
 
@@ -304,6 +313,10 @@ def rotate_shift_statement(lon, lat, angles, shifts):
         k = (r - (base - sh)) / 360.0
         if np.abs(k - np.round(k)).max() > 1e-9:
             return "shiftlon congruence"
+        # the shift as second positional argument (the documented order lon, shift, wrap) and through shiftra
+        if not np.array_equal(co.shiftlon(base, sh), r) or not np.array_equal(co.shiftra(base, sh), r) \
+                or not np.array_equal(co.shiftra(base, shift=sh), r):
+            return "shiftlon(lon, %r) positional / shiftra differ from shiftlon(lon, shift=%r)" % (sh, sh)
     w = co.shiftlon(base, wrap=True)
     if not ((w > -180) & (w <= 180)).all() or np.abs(((w - base) / 360.0) - np.round((w - base) / 360.0)).max() > 1e-12:
         return "wrap"
@@ -378,6 +391,15 @@ def _dom_cap(tier, seed):
     centres += [(rng.uniform(0, 360), rng.uniform(-90, 90)) for _ in range(4 if tier == "quick" else 100)]
     radii = [1e-6, 1e-3, 0.1, 5.0, 60.0, 120.0, 180.0]
     k = 0
+    # caps that come close to a pole without containing it, centred a few tens of degrees from the 0/360 seam: their
+    # longitude half-width asin(sin r / cos dec) is far larger than r / cos dec, so they reach across the seam
+    near_pole = [(58.0, 80.0, 9.0), (302.0, -80.0, 9.0), (62.0, 70.0, 19.0), (65.0, 85.0, 4.9), (295.0, 85.0, 4.9)]
+    near_pole += [(rng.choice([1, -1]) * rng.uniform(40, 80) % 360, rng.choice([1, -1]) * d, (90 - d) * rng.uniform(0.9, 0.995))
+                  for d in [rng.uniform(60, 88) for _ in range(3 if tier == "quick" else 60)]]
+    for ra0, dec0, rad in near_pole:
+        k += 1
+        yield dict(call=(lambda: None), args=[], ghost=dict(ra0=ra0, dec0=dec0, rad=rad, dorot=False, legacy=bool(k % 2), seed=seed + k),
+                   key="centre=(%g,%g) r=%g dorot=False (next to a pole)" % (ra0, dec0, rad))
     for ra0, dec0 in centres:
         for rad in radii:
             for dorot in (False, True):
@@ -529,9 +551,11 @@ def cholesky_statement(cov, mean, n, seed):
     got2 = np.atleast_2d(got)
     if n is None and np.asarray(got).shape != (d,):
         return "single draw is not one vector"
-    ok = got2.shape == exp.shape and np.allclose(got2, exp, rtol=1e-12, atol=1e-12)
+    # tolerance relative to each parameter's standard deviation (covariances of any absolute scale)
+    sig = np.sqrt(np.diag(cov))
+    ok = got2.shape == exp.shape and bool((np.abs(got2 - exp) <= 1e-10 * sig + 1e-12 * np.abs(mean)).all())
     c = er.cholesky_sample(cov, nn, means=mean, dist=(lambda m, r=r: r.reshape(-1)[:m]))
-    ok = ok and np.allclose(c, exp, rtol=1e-12, atol=1e-12)
+    ok = ok and c.shape == exp.shape and bool((np.abs(c - exp) <= 1e-10 * sig + 1e-12 * np.abs(mean)).all())
     return bool(ok) or "not mean + L r"
 
 
@@ -550,6 +574,11 @@ def _dom_chol(tier, seed):
         for _ in range(3 if tier == "quick" else 60):
             a = np.array([[rng.uniform(-1, 1) for _ in range(d)] for _ in range(d)])
             cov = a @ a.T + np.eye(d) * 0.5
+            # correlated covariances of very small and very large absolute scale, and mixed scales between parameters
+            cov = cov * rng.choice([1.0, 1.0, 1e-9, 1e-12, 1e8])
+            if d > 1 and rng.random() < 0.3:
+                sc = np.array([rng.choice([1.0, 1e-5, 1e4]) for _ in range(d)])
+                cov = cov * np.outer(sc, sc)
             mean = np.array([rng.uniform(-3, 3) for _ in range(d)])
             for n in (None, 1, 7):
                 yield dict(call=(lambda: None), args=[], ghost=dict(cov=cov, mean=mean, n=n, seed=seed + d), key="d=%d n=%s" % (d, n))
